@@ -24,7 +24,7 @@ Definition limits_le (a b : limits) : Prop :=
 Inductive extern_sub : externtype -> externtype -> Prop :=
 | sub_func p r : extern_sub (TFunc p r) (TFunc p r)
 | sub_table l l' e : limits_le l l' -> extern_sub (TTable l e) (TTable l' e)
-| sub_mem l l' : limits_le l l' -> extern_sub (TMem l) (TMem l')
+| sub_mem l l' sh : limits_le l l' -> extern_sub (TMem l sh) (TMem l' sh)   (* same sharedness (threads proposal) *)
 | sub_global m v : extern_sub (TGlobal m v) (TGlobal m v).
 
 Lemma limits_match_le a b : limits_match a b = true <-> limits_le a b.
@@ -43,12 +43,12 @@ Proof.
   - destruct act, imp; cbn [extern_match]; intros H; try discriminate.
     + apply andb_prop in H. destruct H as [H1 H2]. apply list_eqb_eq in H1, H2. subst. constructor.
     + apply andb_prop in H. destruct H as [H1 H2]. apply Z.eqb_eq in H2. subst. constructor. apply limits_match_le. exact H1.
-    + constructor. apply limits_match_le. exact H.
+    + apply andb_prop in H. destruct H as [H1 H2]. apply Bool.eqb_prop in H2. subst. constructor. apply limits_match_le. exact H1.
     + apply andb_prop in H. destruct H as [H1 H2]. apply Z.eqb_eq in H2. apply Bool.eqb_prop in H1. subst. constructor.
   - intros H. destruct H; cbn [extern_match].
     + apply andb_true_intro. split; apply list_eqb_eq; reflexivity.
     + apply andb_true_intro. split; [apply limits_match_le; assumption|apply Z.eqb_refl].
-    + apply limits_match_le; assumption.
+    + apply andb_true_intro. split; [apply limits_match_le; assumption|apply Bool.eqb_reflx].
     + apply andb_true_intro. split; [apply Bool.eqb_reflx|apply Z.eqb_refl].
 Qed.
 
@@ -57,7 +57,7 @@ Qed.
 Definition link_wf (L : Z) (d : idesc) (x : xobj) : Prop :=
   match d, x with
   | DTable _ _ _ _, XTable tmin _ _ _ tlen => tmin <= tlen                 (* a table is never shorter than its declared minimum *)
-  | DMem mn hm mx, XMem buflen maxN ehm emx =>
+  | DMem mn hm mx _, XMem buflen maxN ehm emx _ =>
       0 <= buflen <= 2 ^ 32 /\ 0 <= L <= 65536 /\                          (* Buffer is at most 65536 pages; the runtime's page limit *)
       (hm = true -> 0 <= mx <= L) /\ (ehm = true -> 0 <= emx <= L) /\      (* declared maxima within the limit (Memory.Validate) *)
       (exists emn, maxN = norm_max L emn ehm emx)                          (* MemoryInstance.Max comes from the decoder *)
@@ -68,7 +68,7 @@ Definition link_wf (L : Z) (d : idesc) (x : xobj) : Prop :=
    the exporter declares none (open finding memory-import-max-vs-unbounded) *)
 Definition unbounded_vs_limit (L : Z) (d : idesc) (x : xobj) : Prop :=
   match d, x with
-  | DMem _ hm mx, XMem _ _ ehm _ => hm = true /\ ehm = false /\ mx = L
+  | DMem _ hm mx _, XMem _ _ ehm _ _ => hm = true /\ ehm = false /\ mx = L
   | _, _ => False
   end.
 
@@ -90,7 +90,7 @@ Qed.
 Lemma import_accept_sound L d x :
   link_wf L d x -> ~ unbounded_vs_limit L d x -> code_accept L d x = 0 -> extern_match (spec_of_xobj x) (spec_of_idesc d) = true.
 Proof.
-  intros Hwf Hex Hacc. destruct d as [p r|mn hm mx et|mn hm mx|mu v], x as [p' r'|tmin thm tmx tty tlen|buflen maxN ehm emx|mu' v'];
+  intros Hwf Hex Hacc. destruct d as [p r|mn hm mx et|mn hm mx sh|mu v], x as [p' r'|tmin thm tmx tty tlen|buflen maxN ehm emx xsh|mu' v'];
     cbn [code_accept] in Hacc; try discriminate; cbn [spec_of_xobj spec_of_idesc extern_match].
   - destruct (list_eqb p' p && list_eqb r' r) eqn:E; [reflexivity|discriminate].
   - cbn [link_wf] in Hwf.
@@ -106,6 +106,10 @@ Proof.
     rewrite pages_of_buflen in Hacc by exact Hb.
     rewrite !norm_max_val in Hacc by assumption.
     destruct (Z.ltb_spec (buflen / 65536) mn); [discriminate|].
+    assert (Hsh : Bool.eqb xsh sh = true).
+    { destruct sh, xsh; cbn [Bool.eqb negb] in Hacc |- *; try reflexivity;
+        destruct ((if hm then mx else L) <? (if ehm then emx else L)); discriminate. }
+    rewrite Hsh, andb_true_r.
     unfold limits_match; cbn [l_min l_hasmax l_max].
     apply andb_true_intro. split; [lia|].
     destruct hm; [|reflexivity]. specialize (Hm eq_refl).
@@ -116,6 +120,34 @@ Proof.
     destruct (Z.eqb_spec v v'); cbn [negb] in Hacc; [|discriminate].
     apply Bool.eqb_prop in E1. subst. rewrite Bool.eqb_reflx, Z.eqb_refl. reflexivity.
 Qed.
+
+(* the shared flag of a memory type (threads proposal; checked by resolveImports since adbc65a): an accepted memory
+   import has the exporter's sharedness, with NO side condition, and that is what the specification's matching demands *)
+Lemma shared_flag_checked L mn hm mx sh buflen maxN ehm emx xsh :
+  code_accept L (DMem mn hm mx sh) (XMem buflen maxN ehm emx xsh) = 0 -> sh = xsh.
+Proof.
+  cbn [code_accept]. intros H.
+  destruct (memoryBytesNumToPages buflen <? mn); [discriminate|].
+  destruct (norm_max L mn hm mx <? maxN); [discriminate|].
+  destruct sh, xsh; cbn in H; try reflexivity; discriminate.
+Qed.
+
+Lemma extern_match_shared l sh l' sh' : extern_match (TMem l sh) (TMem l' sh') = true <-> limits_match l l' = true /\ sh = sh'.
+Proof.
+  cbn [extern_match]. split.
+  - intros H. apply andb_prop in H. destruct H as [H1 H2]. apply Bool.eqb_prop in H2. auto.
+  - intros [H1 ->]. rewrite H1, Bool.eqb_reflx. reflexivity.
+Qed.
+
+(* all four combinations on limits that match: equal flags are accepted, different flags give class 9, both ways *)
+Example shared_flag_combinations :
+  let d sh := DMem 1 true 10 sh in let x sh := XMem 65536 10 true 10 sh in
+  code_accept 65536 (d false) (x false) = 0 /\ code_accept 65536 (d true) (x true) = 0 /\
+  code_accept 65536 (d true) (x false) = 9 /\ code_accept 65536 (d false) (x true) = 9 /\
+  extern_match (spec_of_xobj (x false)) (spec_of_idesc (d true)) = false /\
+  extern_match (spec_of_xobj (x true)) (spec_of_idesc (d false)) = false /\
+  extern_match (spec_of_xobj (x true)) (spec_of_idesc (d true)) = true.
+Proof. cbv zeta. splits; vm_compute; reflexivity. Qed.
 
 (* the code is stricter than the specification for tables: it compares with the DECLARED minimum, not the length *)
 Lemma stricter_than_spec_example : exists L d x,
@@ -128,15 +160,15 @@ Qed.
 Lemma memory_unbounded_refuted : exists L d x,
   link_wf L d x /\ unbounded_vs_limit L d x /\ code_accept L d x = 0 /\ extern_match (spec_of_xobj x) (spec_of_idesc d) = false.
 Proof.
-  exists 65536, (DMem 1 true 65536), (XMem 65536 65536 false 0).
+  exists 65536, (DMem 1 true 65536 false), (XMem 65536 65536 false 0 false).
   splits; try reflexivity; cbn [link_wf unbounded_vs_limit]; splits; try reflexivity; try lia; try (intros; lia); try discriminate.
   exists 1. reflexivity.
 Qed.
 
 (* non-vacuity: an accepted memory import with all hypotheses, growth included (current size 3 pages, declared min 1) *)
 Example accept_example :
-  link_wf 65536 (DMem 3 true 10) (XMem (3 * 65536) 8 true 8) /\ ~ unbounded_vs_limit 65536 (DMem 3 true 10) (XMem (3 * 65536) 8 true 8) /\
-  code_accept 65536 (DMem 3 true 10) (XMem (3 * 65536) 8 true 8) = 0.
+  link_wf 65536 (DMem 3 true 10 false) (XMem (3 * 65536) 8 true 8 false) /\ ~ unbounded_vs_limit 65536 (DMem 3 true 10 false) (XMem (3 * 65536) 8 true 8 false) /\
+  code_accept 65536 (DMem 3 true 10 false) (XMem (3 * 65536) 8 true 8 false) = 0.
 Proof.
   split; [|split].
   - cbn [link_wf]. splits; try lia; try (intros; lia). exists 1. reflexivity.
@@ -561,7 +593,7 @@ Lemma allocate_ext L st m r st1 i : allocate L st m r = (st1, i) ->
     s_tabs (ls st1) = s_tabs (ls st) ++ ts /\ s_log (ls st1) = s_log (ls st) /\ ls_x st1 = ls_x st.
 Proof.
   unfold allocate. intros H.
-  destruct (md_table m) as [[[tmn thm] tmx]|], (md_mem m) as [[[mmn mhm] mmx]|]; inversion H; subst; clear H; cbn [ls s_funcs s_insts s_globals s_mems s_tabs s_log ls_x].
+  destruct (md_table m) as [[[tmn thm] tmx]|], (md_mem m) as [[[[mmn mhm] mmx] msh]|]; inversion H; subst; clear H; cbn [ls s_funcs s_insts s_globals s_mems s_tabs s_log ls_x].
   - eexists _, _, [_], [_]. splits; reflexivity.
   - eexists _, _, [], [_]. splits; try reflexivity; symmetry; apply app_nil_r.
   - eexists _, _, [_], []. splits; try reflexivity; symmetry; apply app_nil_r.
@@ -672,7 +704,7 @@ Definition ex_starter (s : store Spec) (fa : nat) : store Spec * Z := (s, 0).
 
 (* A: memory 1..2 pages, table of 4, a mutable and an immutable i32 global, one function; everything exported *)
 Definition exA : modul :=
-  Build_modul [([32], [32])] [] [Build_fdef 0 0 [LocalGet 0]] (Some (4, false, 0)) (Some (1, true, 2))
+  Build_modul [([32], [32])] [] [Build_fdef 0 0 [LocalGet 0]] (Some (4, false, 0)) (Some (1, true, 2, false))
     [Build_gdef true 32 (CConst 32 5); Build_gdef false 32 (CConst 32 2)]
     [(0, EFunc 0); (2000, EMem 0); (3000, ETab 0); (1000, EGlob 0); (1001, EGlob 1)] [] [] None.
 
@@ -680,7 +712,7 @@ Definition exA : modul :=
    the second data segment is out of range when last_off = 65535 *)
 Definition exB (last_off : Z) : modul :=
   Build_modul [([32], [32])]
-    [Build_import 0 2000 (IMem 1 false 0); Build_import 0 3000 (ITable 2 false 0 112); Build_import 0 1001 (IGlobal false 32);
+    [Build_import 0 2000 (IMem 1 false 0 false); Build_import 0 3000 (ITable 2 false 0 112); Build_import 0 1001 (IGlobal false 32);
      Build_import 0 1000 (IGlobal true 32)]
     [Build_fdef 0 0 [LocalGet 0]] None None [Build_gdef false 32 (CGlobalGet 0)]
     [(2000, EMem 0); (1001, EGlob 2)]
